@@ -24,6 +24,9 @@
       buffer flushes (a call costs at most 2*progress+1); the third via the potential `phi` = rows
       the open cartesian block still has to emit (a scan of ci+cj-2 bodies opens a block of ci*cj
       rows) - a purely syntactic fact about step_gen (`kstep_cnt_cost`), no invariant needed.
+   3. `iters d it ks d'` (it completed iterations from d to d', ks kernel loop bodies) and
+      `streamed_prefix_bound`: every prefix of an execution from the initial state is within the
+      bounds of 2 - the form that also covers runs that end in the clear ValueError.
       Not counted: count_back inside get_next_chunk and the slice copies of a chunk fetch. *)
 From Coq Require Import ZArith List Lia Bool ZifyBool.
 From EV Require Import Res Arr Join JoinSpec JoinBase JoinIface JoinDriver.
@@ -797,5 +800,79 @@ Proof.
   destruct (Htail emit (fun H => H) x2 E2) as (Ht & Hrs).
   intros Eq. injection Eq as _ <-. cbn [c_calls c_ksteps c_scan c_tail c_rsteps]. lia.
 Qed.
+
+(* ---------------------------------------------------------------- (3) every prefix of an execution
+   `iters d it ks d'`: `it` completed main-loop iterations lead from d to d' and executed ks kernel loop bodies.
+   Whatever happens afterwards (more iterations, the exit, the clear ValueError of a chunk fetch), the completed
+   iterations are within the linear bounds - this is the form of (2) that also covers runs ending in the error. *)
+Inductive iters : drv -> nat -> nat -> drv -> Prop :=
+| iters_O : forall d, iters d 0 0 d
+| iters_S : forall d d1 n m it ks d', main_iter_cnt v L R inv cs d = Ok (Some (d1, (n, m))) ->
+    iters d1 it ks d' -> iters d (S it) (n + ks) d'.
+
+Lemma iters_bound : forall d it ks d', iters d it ks d' -> forall O, DInvK d O ->
+  exists O', DInvK d' O' /\ GI d <= GI d' /\ GJ d <= GJ d' /\ len O <= len O' /\
+    Z.of_nat it <= (GI d' - GI d) + (GJ d' - GJ d) + (len O' - len O) /\
+    Z.of_nat ks <= 2 * ((GI d' - GI d) + (GJ d' - GJ d) + (len O' - len O)) + Z.of_nat it.
+Proof.
+  induction 1 as [d|d d1 n m it ks d' E _ IH]; intros O HD.
+  - exists O. splits; try assumption; lia.
+  - destruct (main_iter_cnt_ok d O HD)
+      as [(Hr & _)|[(E0 & _)|(d1' & O1 & n' & m' & E1 & HD1 & HI1 & HJ1 & HO1 & Hp1 & Hn1 & _)]].
+    + rewrite Hr in E. discriminate.
+    + rewrite E0 in E. discriminate.
+    + rewrite E1 in E. injection E as <- <- <-.
+      destruct (IH O1 HD1) as (O' & HD' & H1 & H2 & H3 & H4 & H5).
+      exists O'. splits; try assumption; lia.
+Qed.
+
+Definition init_drv (lc rc : (Z * Z) * list Z) : drv :=
+  let buf := repeat 0 (Z.to_nat cs) in
+  mkdrv (mkfsm 0 0 0 0 0 (-1) (-1) false buf buf)
+        (fst lc) (snd lc) (snd (fst lc) - fst (fst lc)) (fst (fst lc))
+        (fst rc) (snd rc) (snd (fst rc) - fst (fst rc)) (fst (fst rc)) [] [].
+
+Theorem streamed_prefix_bound lc rc it ks d' :
+  fetch_chunk (v_ltrim v) 0 cs L = Ok lc -> fetch_chunk (v_rtrim v) 0 cs R = Ok rc ->
+  iters (init_drv lc rc) it ks d' ->
+  Z.of_nat it <= len L + len R + len SPEC /\ Z.of_nat ks <= 2 * (len L + len R + len SPEC) + Z.of_nat it.
+Proof.
+  intros El Er Hit.
+  pose proof (len_nonneg L) as HLn. pose proof (len_nonneg R) as HRn.
+  destruct (fetch_chunk_spec (v_ltrim v) 0 cs L Hcs ltac:(lia)) as [Hr|(lb & ldata & El' & HckL)]; [congruence|].
+  destruct (fetch_chunk_spec (v_rtrim v) 0 cs R Hcs ltac:(lia)) as [Hr|(rb & rdata & Er' & HckR)]; [congruence|].
+  assert (lc = ((0, lb), ldata)) by congruence. assert (rc = ((0, rb), rdata)) by congruence. subst lc rc.
+  pose proof (DInv_init lb ldata rb rdata HckL HckR) as HD0. cbn zeta in HD0.
+  unfold init_drv in Hit. cbn [fst snd] in Hit. cbv zeta in Hit.
+  destruct (iters_bound _ _ _ _ Hit [] HD0) as (O' & HD' & HI & HJ & HO & H1 & H2).
+  destruct HD' as (HM' & _).
+  pose proof (MidInv_bounds _ _ _ _ _ _ K d' O' HM') as (HI' & HJ').
+  pose proof (MidInv_prefix d' O' HM') as HO'.
+  match type of H1 with context [GI ?d0] => assert (HGI0 : GI d0 = 0) by reflexivity;
+                                             assert (HGJ0 : GJ d0 = 0) by reflexivity end.
+  rewrite HGI0, HGJ0 in *. change (len (@nil (Z * Z))) with 0 in *. lia.
+Qed.
+
+(* `iters` is what the instrumented main loop does, and `init_drv` is where the driver starts *)
+Lemma main_loop_cnt_iters : forall fuel d it ks sc d' it' ks' sc',
+  main_loop_cnt fuel v L R inv cs d it ks sc = Ok (d', (it', ks', sc')) ->
+  exists n m, iters d n m d' /\ it' = (it + n)%nat /\ ks' = (ks + m)%nat.
+Proof.
+  induction fuel as [|fuel IH]; intros d it ks sc d' it' ks' sc' E; cbn [main_loop_cnt] in E; [discriminate|].
+  destruct (main_iter_cnt v L R inv cs d) as [[[d1 [n m]]|]| | |] eqn:E1; cbn [bind] in E; try discriminate.
+  - destruct (IH _ _ _ _ _ _ _ _ E) as (n0 & m0 & Hit & -> & ->).
+    exists (S n0), (n + m0)%nat. split; [exact (iters_S _ _ _ _ _ _ _ E1 Hit)|lia].
+  - injection E as <- <- <- <-. exists 0%nat, 0%nat. split; [constructor|lia].
+Qed.
+
+Lemma streamed_cnt_init :
+  streamed_cnt v L R inv cs =
+  do lc <- fetch_chunk (v_ltrim v) 0 cs L;
+  do rc <- fetch_chunk (v_rtrim v) 0 cs R;
+  do x1 <- main_loop_cnt (driver_fuel L R) v L R inv cs (init_drv lc rc) 0 0 0;
+  do x2 <- (if v_left v then tail_loop_cnt (S (S (length L))) v L inv cs (fst x1) 0 0 else Ok (fst x1, (O, O)));
+  Ok ((outl (fst x2), outr (fst x2)),
+      mkcounts (fst (fst (snd x1))) (snd (fst (snd x1))) (snd (snd x1)) (fst (snd x2)) (snd (snd x2))).
+Proof. reflexivity. Qed.
 
 End Steps.
